@@ -32,6 +32,8 @@ func init() {
 }
 
 const concColl = "cc"
+const concColl2 = "c2"
+const concClosedMark = "\x00closed"
 
 type concOut struct {
 	Err  string
@@ -133,6 +135,8 @@ func genConc(job *Job, prop string, seed, idx uint64) *RunOutcome {
 	if r.Chance(0.35) {
 		weights = []int{1, 6, 9, 5, 1, 1, 0, 5, 2, 1, 0}
 	}
+	withC2 := r.Chance(0.3)
+	withClose := r.Chance(0.12)
 	for c := 0; c < nClients; c++ {
 		nOps := r.Range(2, 7)
 		if nClients > 5 {
@@ -195,6 +199,33 @@ func genConc(job *Job, prop string, seed, idx uint64) *RunOutcome {
 				ops = append(ops, Op{K: "HasIndex", Coll: concColl, Field: "g"})
 			}
 		}
+		if withC2 {
+			// catalog operations on a second collection, racing with each other
+			for k := r.Range(1, 3); k > 0; k-- {
+				var op Op
+				switch r.Intn(6) {
+				case 0, 1:
+					op = Op{K: "CreateCollection", Coll: concColl2}
+				case 2:
+					op = Op{K: "DropCollection", Coll: concColl2}
+				case 3:
+					op = Op{K: "HasCollection", Coll: concColl2}
+				case 4:
+					op = Op{K: "Insert", Coll: concColl2, Docs: []val.V{val.Wrap(map[string]interface{}{"_id": g.newID(), "g": int64(r.Intn(3)), "v": u("j")})}}
+				default:
+					op = Op{K: "FindAll", Q: &model.Query{Coll: concColl2}}
+				}
+				at := r.Intn(len(ops) + 1)
+				ops = append(ops[:at], append([]Op{op}, ops[at:]...)...)
+			}
+		}
+		if withClose && (c < 3 || r.Bool()) {
+			// the closers start together once every client has finished its other operations
+			ops = append(ops, Op{K: "Close"})
+			if r.Bool() {
+				ops = append(ops, Op{K: "FindAll", Q: &model.Query{Coll: concColl}})
+			}
+		}
 		rf.Clients = append(rf.Clients, ops)
 	}
 	return runConc(rf)
@@ -206,17 +237,67 @@ func concStep(st *model.DB, op *Op, out concOut) (bool, *model.DB) {
 	if out.Err == "conflict" {
 		// rejected by the store because of a write conflict: no effect; only write transactions can conflict
 		switch op.K {
-		case "FindAll", "Count", "FindById", "HasIndex":
+		case "FindAll", "Count", "FindById", "HasIndex", "HasCollection", "Close":
 			return false, st
 		}
 		return true, st
 	}
-	c := st.Colls[concColl]
+	if st.Colls[concClosedMark] != nil {
+		// a Close has been acknowledged: Close is idempotent, and every other
+		// operation may fail without effect. (A Close that lost the race for the
+		// closed flag returns before the store is actually closed, so an
+		// operation may also still succeed; it is then judged as usual.)
+		if op.K == "Close" {
+			return out.Err == "ok", st
+		}
+		if strings.HasPrefix(out.Err, "error") {
+			return true, st
+		}
+	}
+	name := op.Coll
+	if op.Q != nil {
+		name = op.Q.Coll
+	}
+	c := st.Colls[name]
 	expectErr := func(want string) bool { return out.Err == want }
 	mutate := func(f func(nc *model.Coll)) *model.DB {
 		n := st.Clone()
-		f(n.Colls[concColl])
+		f(n.Colls[name])
 		return n
+	}
+	switch op.K {
+	case "Close":
+		if !expectErr("ok") {
+			return false, st
+		}
+		n := st.Clone()
+		n.Colls[concClosedMark] = &model.Coll{Docs: map[string]model.Doc{}, Indexes: map[string]bool{}}
+		return true, n
+	case "CreateCollection":
+		if c != nil {
+			return expectErr("ErrCollectionExist"), st
+		}
+		if !expectErr("ok") {
+			return false, st
+		}
+		n := st.Clone()
+		n.Colls[name] = &model.Coll{Docs: map[string]model.Doc{}, Indexes: map[string]bool{}}
+		return true, n
+	case "DropCollection":
+		if c == nil {
+			return expectErr("ErrCollectionNotExist"), st
+		}
+		if !expectErr("ok") {
+			return false, st
+		}
+		n := st.Clone()
+		delete(n.Colls, name)
+		return true, n
+	case "HasCollection":
+		return expectErr("ok") && out.Has == (c != nil), st
+	}
+	if c == nil {
+		return expectErr("ErrCollectionNotExist"), st
 	}
 	switch op.K {
 	case "Insert":
@@ -339,6 +420,9 @@ type concClient struct {
 	atCall  bool // parked at a store call (pending is meaningful)
 	results []concResult
 	inWrite bool
+	// waitClose: the client's next operation is Close; closedNow: it has started closing
+	waitClose bool
+	closing   bool
 }
 
 type concResult struct {
@@ -382,6 +466,12 @@ func (cr *concRun) clientMain(c *concClient) {
 	c.turn.wait()
 	for i := range c.ops {
 		op := &c.ops[i]
+		if op.K == "Close" && !c.waitClose {
+			// barrier: closers start once nobody has anything else left to do
+			c.waitClose = true
+			cr.parked.signal()
+			c.turn.wait()
+		}
 		res := concResult{op: op}
 		res.call = cr.stamp()
 		res.out = cr.execOp(op)
@@ -407,6 +497,15 @@ func (cr *concRun) execOp(op *Op) (out concOut) {
 		}
 	}()
 	switch op.K {
+	case "Close":
+		out.Err = concErrClass(cr.db.Close())
+	case "CreateCollection":
+		out.Err = concErrClass(cr.db.CreateCollection(op.Coll))
+	case "DropCollection":
+		out.Err = concErrClass(cr.db.DropCollection(op.Coll))
+	case "HasCollection":
+		has, err := cr.db.HasCollection(op.Coll)
+		out.Err, out.Has = concErrClass(err), has
 	case "Insert":
 		docs := op.docMaps()
 		cd := make([]*document.Document, len(docs))
@@ -458,8 +557,22 @@ func (cr *concRun) runnable(c *concClient) bool {
 	if c.done {
 		return false
 	}
+	if c.waitClose && !c.closing {
+		for _, o := range cr.clients {
+			if !o.done && !o.waitClose {
+				return false // somebody still has ordinary operations to run
+			}
+		}
+		if cr.ctl.TxOpen > 0 {
+			return false
+		}
+		c.closing = true
+	}
 	if cr.single && c.atCall && c.pending == wrap.KBegin && c.pendUpd && cr.ctl.WriteTxOpen > 0 {
 		return false // would block on the writer lock
+	}
+	if c.atCall && c.pending == wrap.KClose && cr.ctl.TxOpen > 0 {
+		return false // closing the store waits for every open transaction (bbolt)
 	}
 	return true
 }
@@ -679,8 +792,34 @@ func runConc(rf *RunFile) *RunOutcome {
 			}
 		}
 	}
+	closedAtEnd := false
+	for _, c := range cr.clients {
+		for _, r := range c.results {
+			if r.op.K == "Close" {
+				closedAtEnd = true
+			}
+		}
+	}
+	if closedAtEnd {
+		out.Stats.Probes["concurrent-close"]++
+		e.closed = true
+	}
 	finalOp := &Op{K: "FindAll", Q: &model.Query{Coll: concColl}}
 	fdocs, ferr := e.DB.FindAll(QueryToClover(finalOp.Q))
+	var f2docs []*document.Document
+	has2 := false
+	if !closedAtEnd {
+		finalHas2 := &Op{K: "HasCollection", Coll: concColl2}
+		h2, h2err := e.DB.HasCollection(concColl2)
+		has2 = h2
+		history = append(history, porcupine.Operation{ClientId: len(cr.clients), Input: finalHas2, Call: cr.stamp(), Output: concOut{Err: concErrClass(h2err), Has: h2}, Return: cr.stamp()})
+		if h2 {
+			final2 := &Op{K: "FindAll", Q: &model.Query{Coll: concColl2}}
+			d2, d2err := e.DB.FindAll(QueryToClover(final2.Q))
+			f2docs = d2
+			history = append(history, porcupine.Operation{ClientId: len(cr.clients), Input: final2, Call: cr.stamp(), Output: concOut{Err: concErrClass(d2err), Docs: canonDocs(d2)}, Return: cr.stamp()})
+		}
+	}
 	history = append(history, porcupine.Operation{ClientId: len(cr.clients), Input: finalOp, Call: cr.stamp(), Output: concOut{Err: concErrClass(ferr), Docs: canonDocs(fdocs)}, Return: cr.stamp()})
 	finalIdx := &Op{K: "HasIndex", Coll: concColl, Field: "g"}
 	has, herr := e.DB.HasIndex(concColl, "g")
@@ -726,8 +865,18 @@ func runConc(rf *RunFile) *RunOutcome {
 		out.V = &Violation{Props: []string{"C07"}, Rule: "C07/not-linearizable", Msg: fmt.Sprintf("no sequential order consistent with real time explains this history of %d operations by %d clients (initial state: %d documents, indexes %v):%s", nOps, len(cr.clients), len(initial.Colls[concColl].Docs), initial.Colls[concColl].IndexFields(), sb.String()), Features: feats}
 		return out
 	}
+	if closedAtEnd {
+		out.Stats.Merge(e.Stats)
+		return out
+	}
 	// quiescent consistency of the stored state
 	fin := model.NewDB()
+	if has2 {
+		fin.Colls[concColl2] = &model.Coll{Docs: map[string]model.Doc{}, Indexes: map[string]bool{}}
+		for _, d := range f2docs {
+			fin.Colls[concColl2].Docs[d.ObjectId()] = DocFromClover(d)
+		}
+	}
 	fin.Colls[concColl] = &model.Coll{Docs: map[string]model.Doc{}, Indexes: map[string]bool{}}
 	for _, d := range fdocs {
 		fin.Colls[concColl].Docs[d.ObjectId()] = DocFromClover(d)
@@ -736,7 +885,7 @@ func runConc(rf *RunFile) *RunOutcome {
 		fin.Colls[concColl].Indexes["g"] = true
 	}
 	for name, c := range initial.Colls {
-		if name != concColl {
+		if name != concColl && name != concColl2 {
 			fin.Colls[name] = c
 		}
 	}
